@@ -17,5 +17,5 @@ sed -i "1s|.*|$(head -1 "$REPO/shared.go" | sed 's/[&|]/\\&/g')|" "$D/shared.go"
 rm -f "$D/.l1"
 cp "$HERE/kq_scenarios_test.go.txt" "$D/kq_scenarios_test.go"
 # regression scenarios (demonstrations of earlier seeded changes; public API and kqsim helpers only)
-for f in "$HERE"/kq_regress_*_test.go.txt; do [ -f "$f" ] && cp "$f" "$D/$(basename "${f%.txt}")"; done
+[ -n "${KQ_NO_REGRESS:-}" ] || for f in "$HERE"/kq_regress_*_test.go.txt; do [ -f "$f" ] && cp "$f" "$D/$(basename "${f%.txt}")"; done
 true
